@@ -119,7 +119,7 @@ func (p *script) GenerateSignature(ctx context.Context, req *pf.GenerateSignatur
 	}
 	id := req.KeyID
 	if p.genKeyID != "" {
-		id = p.genKeyID
+		id = strings.TrimPrefix(p.genKeyID, "\x00empty")
 	}
 	alg := map[string]pf.SignatureAlgorithm{"EC-256": pf.SignatureAlgorithmECDSA_SHA256, "EC-384": pf.SignatureAlgorithmECDSA_SHA384, "EC-521": pf.SignatureAlgorithmECDSA_SHA512,
 		"RSA-2048": pf.SignatureAlgorithmRSASSA_PSS_SHA256, "RSA-3072": pf.SignatureAlgorithmRSASSA_PSS_SHA384, "RSA-4096": pf.SignatureAlgorithmRSASSA_PSS_SHA512}[p.keySpecName]
@@ -221,6 +221,17 @@ func main() {
 			s.mutate = edit(func(m map[string]any) { ta(m)["mediaType"] = strings.ToUpper(fmt.Sprint(ta(m)["mediaType"])) })
 		}, true},
 		{"drop-annotation", "envelope", func(s *script) { s.mutate = edit(func(m map[string]any) { delete(ann(m), "k1") }) }, true},
+		{"drop-empty-valued-annotation", "envelope", func(s *script) { s.mutate = edit(func(m map[string]any) { delete(ann(m), "org.example.reviewed") }) }, true},
+		{"cose-only:duplicate-annotation-name-requested-value-last", "envelope", func(s *script) {
+			s.mutate = func(b []byte) []byte {
+				return []byte(strings.Replace(string(b), `"annotations":{`, `"annotations":{"k1":"evil",`, 1))
+			}
+		}, true},
+		{"cose-only:duplicate-annotation-name-requested-value-first", "envelope", func(s *script) {
+			s.mutate = func(b []byte) []byte {
+				return []byte(strings.Replace(string(b), `"annotations":{`, `"annotations":{"k2":"v2","k1":"v1","k2":"evil","dup":[{"k1":1}],`, 1))
+			}
+		}, true},
 		{"alter-annotation", "envelope", func(s *script) { s.mutate = edit(func(m map[string]any) { ann(m)["k1"] = "zz" }) }, true},
 		{"alter-annotation-empty", "envelope", func(s *script) { s.mutate = edit(func(m map[string]any) { ann(m)["k2"] = "" }) }, true},
 		{"annotations-null", "envelope", func(s *script) { s.mutate = edit(func(m map[string]any) { ta(m)["annotations"] = nil }) }, true},
@@ -339,6 +350,9 @@ func main() {
 			s.caps, s.describeSpec = []pf.Capability{pf.CapabilityEnvelopeGenerator, pf.CapabilitySignatureGenerator}, " "
 		}, true},
 		{"generate-signature-key-id", "raw", func(s *script) { s.genKeyID = "another-key" }, true},
+		{"generate-signature-key-id-empty", "raw", func(s *script) { s.genKeyID = "\x00empty" }, true}, // (an answer that names no key at all)
+		{"generate-signature-key-id-other-case", "raw", func(s *script) { s.genKeyID = "KEY-1" }, true},
+		{"generate-signature-key-id-trailing-blank", "raw", func(s *script) { s.genKeyID = "key-1 " }, true},
 		{"chain-of-another-key", "raw", func(s *script) { s.chain = "other" }, true},
 		{"chain-empty", "raw", func(s *script) { s.chain = "empty" }, true},
 		{"chain-invalid-der", "raw", func(s *script) { s.chain = "invalid-der" }, true},
